@@ -165,10 +165,11 @@ def parseControlExpression : PM ONode := do
   let st ← getSt
   pure (some (.control st.cur.tk))
 
-/-- okParamList: `none` = panic (nil node), else (offending-or-dotdot token?, ok) -/
+/-- okParamList: (offending-or-dotdot token?, ok); the result `none` (= Go panic) is no longer
+produced since the fix that checks `n == nil` first (a failed parameter is reported as not ok) -/
 def okParamList : NList → Option (Option Tk × Bool)
   | [] => some (none, true)
-  | none :: _ => none
+  | none :: _ => some (none, false)
   | some n :: rest =>
     let t := n.tok
     if rest.isEmpty && t.type = .DOTDOT then some (some t, true)
